@@ -18,6 +18,7 @@ func init() {
 }
 
 func c17(c *Ctx) {
+	c.walFrameReads("wal-frame/page-after-header")
 	p := c.P
 	c.divGuards("div")
 	c.journalValidity("journal-valid")
